@@ -657,6 +657,7 @@ def transitivity_bu(A):
     T : float
         transitivity scalar
     '''
+    A = np.array(A, dtype=float)
     tri3 = np.trace(np.dot(A, np.dot(A, A)))
     tri2 = np.sum(np.dot(A, A)) - np.trace(np.dot(A, A))
     return tri3 / tri2
